@@ -84,6 +84,12 @@ structure TakeInfo where
   fromStdin : Bool
   deriving Repr, DecidableEq
 
+/-- ghost: one entry of the unified input log — an ARGV operand was fetched, or a record was delivered -/
+inductive LogEntry
+  | op (o : Bytes)
+  | record (filename : Bytes) (fnr : Nat) (r : Rec)
+  deriving Repr, DecidableEq
+
 /-- ghost: one evaluation of a range rule — its position, the values of its two patterns, the decision taken -/
 structure Visit where
   rule : Nat
@@ -121,6 +127,7 @@ structure St where
   takes : List TakeInfo := []   -- newest first
   edited : Bool := false        -- the program has assigned ARGV / ARGC or executed nextfile
   visits : List Visit := []     -- newest first
+  ilog : List LogEntry := []    -- newest first: operand fetches and record deliveries in one sequence
 
 def St.view (s : St) : View := ⟨s.line, s.nr, s.fnr, s.filename, s.vars⟩
 
@@ -160,11 +167,12 @@ def St.setVar (s : St) (i : Nat) (val : Bytes) : St := { s with vars := setPad s
 /-- the tail of `nextLine`: a record was scanned -/
 def St.took (s : St) (r : Rec) (rest : List Rec) : St :=
   { s with cur := some rest, nr := s.nr + 1, fnr := s.fnr + 1,
-           takes := ⟨r, s.nr + 1, s.fnr + 1, s.filename, s.onStdin⟩ :: s.takes }
+           takes := ⟨r, s.nr + 1, s.fnr + 1, s.filename, s.onStdin⟩ :: s.takes,
+           ilog := .record s.filename (s.fnr + 1) r :: s.ilog }
 
 def St.fetch (s : St) : Bytes × St :=
   let o := s.argv.getD s.idx []
-  (o, { s with idx := s.idx + 1, consumed := o :: s.consumed })
+  (o, { s with idx := s.idx + 1, consumed := o :: s.consumed, ilog := .op o :: s.ilog })
 
 def St.setLine (s : St) (l : Bytes) : St := { s with line := l }
 
